@@ -988,15 +988,17 @@ def kidsOk (chk : NodeId → Option Int → Option Int → Bool) (lo hi : Option
     (c == 0 || chk c lo (some i.key)) && leOpt lo i.key && optLe i.key hi && i.id != 0
       && kidsOk chk (some i.key) hi cs is
 
-/-- shape of one node: arrays have the configured length, count fits, the tail is zeroed -/
+/-- shape of one node: arrays have the configured length, count fits, the tail is zeroed, the memoised
+    child index is `-1` (unknown) or an index into the parent's children array -/
 def nodeShapeOk (t : BTree) (nd : Node) : Bool :=
-  nd.slots.size == t.sl && decide (nd.count ≤ t.sl)
+  nd.slots.size == t.sl && decide (nd.count ≤ t.sl) && decide (-1 ≤ nd.ion) && decide (nd.ion ≤ (t.sl : Int))
     && (nd.slots.toList.drop nd.count).all (fun i => i == ({} : Item))
     && (match nd.children with
         | none => true
         | some cs => cs.size == t.sl + 1 && (cs.toList.drop (nd.count + 1)).all (· == 0))
 
-/-- subtree check: parent link, shape, sortedness, separator bounds (nil children allowed) -/
+/-- subtree check: parent link, shape, every node but the root holds at least one item, sortedness,
+    separator bounds (nil children allowed) -/
 def checkNode (t : BTree) : Nat → NodeId → NodeId → Option Int → Option Int → Bool
   | 0, _, _, _, _ => false
   | fuel + 1, n, parent, lo, hi =>
@@ -1004,7 +1006,7 @@ def checkNode (t : BTree) : Nat → NodeId → NodeId → Option Int → Option 
     match t.get? n with
     | none => false
     | some nd =>
-      nd.parent == parent && nodeShapeOk t nd &&
+      nd.parent == parent && nodeShapeOk t nd && (parent == 0 || decide (1 ≤ nd.count)) &&
       match nd.children with
       | none => itemsOk lo hi nd.items
       | some cs => kidsOk (fun c l h => checkNode t fuel c n l h) lo hi (cs.toList.take (nd.count + 1)) nd.items
@@ -1020,6 +1022,7 @@ def reach (t : BTree) : Nat → NodeId → List NodeId
 
 /-- the decidable well-formedness checker -/
 def checkWF (t : BTree) : Bool :=
+  decide (2 ≤ t.sl) && t.sl % 2 == 0 &&
   if t.root == 0 then t.nodes.isEmpty && t.count == 0   -- no root yet
   else
     checkNode t (t.nodes.length + 1) t.root 0 none none
